@@ -7,16 +7,18 @@ CONSTANTS Forms
 Pairs(f) == {<<k, f[k]>> : k \in DOMAIN f}
 \* the state is only an identity for the harness (it rebuilds the graph); what it compares is Obs
 St == ToString(core)
-Obs == [out |-> out, pending |-> PendIds, done |-> done, failed |-> failed,
+Obs == [out |-> out, subs |-> subs, pending |-> PendIds, done |-> done, failed |-> failed,
         ackedR |-> Pairs(aR), delivR |-> Pairs(dR), delivU |-> Pairs(dU), ids |-> ids]
-FormsFor(acks, rel) == IF acks = {} THEN {"app"} ELSE IF rel THEN Forms \ {"pa", "mix"} ELSE
-                       IF Cardinality(acks) < 2 THEN Forms \ {"mix"} ELSE Forms
+\* a data message (matches the extra subscribers) carries its acks appended; a PacketAck message does not match
+FormsFor(acks, match) == IF match THEN {"app"} ELSE
+                         IF Cardinality(acks) < 2 THEN Forms \ {"app", "mix"} ELSE Forms \ {"app"}
 MInit == Init /\ PrintT(ToJson([init |-> St, obs |-> Obs]))
 P(act) == PrintT(ToJson([src |-> St, act |-> act, dst |-> St', obs |-> Obs']))
 MNext == \/ \E p \in RelPids, acks \in AckSets : RecvRel(p, acks) /\ \A f \in FormsFor(acks, TRUE) :
               P([n |-> "Recv", p |-> p, rel |-> TRUE, acks |-> acks, form |-> f])
-         \/ \E p \in UnrelPids, acks \in AckSets : RecvUnrel(p, acks) /\ \A f \in FormsFor(acks, FALSE) :
+         \/ \E p \in UnrelPids, acks \in AckSets, match \in BOOLEAN : RecvUnrel(p, acks, match) /\ \A f \in FormsFor(acks, match) :
               P([n |-> "Recv", p |-> p, rel |-> FALSE, acks |-> acks, form |-> f])
+         \/ \E l \in Levels, k \in SubKinds : DoSubscribe(l, k) /\ P([n |-> "Subscribe", l |-> l, k |-> k])
          \/ Stray /\ P([n |-> "Stray", acks |-> PendIds])
          \/ DoSendRel /\ P([n |-> "SendRel"])
          \/ DoSendUnrel /\ P([n |-> "SendUnrel"])
